@@ -1,2 +1,288 @@
--- stub driver, replaced by the builder of X05
-def main : IO Unit := pure ()
+import PyramidModel.Prelude
+import PyramidModel.AuthPolicy
+import PyramidModel.Lemmas.AuthPolicySpec
+import PyramidModel.Acl
+/-! Driver for X05: one JSON case per line.  Text t = list of code points.
+prin  P = {"s":t} | {"i":n}          optional prin  OP = null | P          groups G = null | [P,…]
+ident I = {"userid": OP, "tag": n}  or  {"tag": n}   (no "userid" member = the dict lacks the key)
+in : {"op":"parse","h": null | t}
+     {"op":"format","u":t,"p":t}
+     {"op":"fmt","s":t,"args":[t,…]}
+     {"op":"policy",
+        "kind":"remote"|"session"|"repoze"|"basic", "prefix":t, "realm":t,
+        "cb": null | {"rows":[[A,G],…],"default":G}      A = P (remote, session) | I (repoze) | [t,t] (basic: check(u,p))
+        "req": {"remote":OP, "identity": null|I, "plugins": null|bool, "authorization": null|t, "session":[[t,OP],…]},
+        "sec":"none"|"legacy"|"custom",
+        "custom": {"identity":OP,"userid":OP,"permits":[[ctx,perm],…],"remember":[[t,t],…],"forget":[[t,t],…]},
+        "authz": {"kind":"table","allow":[[ctx,[P,…],perm],…]} | {"kind":"acl","contexts":[[null|[[action,P,perms],…],…],…]}
+                 (acl: a context number indexes "contexts"; action 0=Allow 1=Deny 2=other; perms = n | [n,…] | "all")
+        "perm":n, "ctx_arg": null|n, "uid":P (what is remembered)}
+out: parse  {"out": null | "raises" | {"u":t,"p":t}}
+     format {"h":t}
+     fmt    {"ok":t} | {"err":"TypeError"|"ValueError"|"unmodelled"}
+     policy {"unauth":R OP,"auth":R OP,"identity":R OP,"is_auth":R bool,"eff":R [P…],"perm":R X,"perm_ctx":R X,
+             "remember":R {"h":H,"s":session},"forget":…,"forget_kw":…,"verified":R (null | {"u":P,"g":[P…]})}
+            R v = {"ok":v} | {"err":"KeyError"|"UnicodeEncodeError"|"ValueError"}     X = "nopolicy" | bool
+            H = {"list":[[t,t],…]} | {"plugin_remember":P} | {"plugin_forget": null|I} -/
+open Pyr Pyr.AuthPolicy Lean
+
+namespace DrvX05
+
+def textOf (j : Json) : Except String Text := do
+  let cs : List Nat ← fromJson? j
+  pure (cs.map Char.ofNat)
+
+def jText (t : Text) : Json := toJson (t.map Char.toNat)
+
+def prinOf (j : Json) : Except String Prin :=
+  match j.getObjVal? "s" with
+  | .ok t => do pure (.str (← textOf t))
+  | .error _ => do
+    let n : Int ← getAs j "i"
+    pure (.int n)
+
+def optPrinOf (j : Json) : Except String (Option Prin) :=
+  match j with
+  | .null => pure none
+  | _ => some <$> prinOf j
+
+def jPrin : Prin → Json
+  | .str t => Json.mkObj [("s", jText t)]
+  | .int n => Json.mkObj [("i", toJson n)]
+
+def jOptPrin : Option Prin → Json
+  | none => Json.null
+  | some p => jPrin p
+
+def arrOf (j : Json) : Except String (List Json) :=
+  match j with
+  | .arr xs => pure xs.toList
+  | _ => throw "expected a list"
+
+def groupsOf (j : Json) : Except String Groups :=
+  match j with
+  | .null => pure none
+  | _ => do pure (some (← (← arrOf j).mapM prinOf))
+
+def identOf (j : Json) : Except String AuthPolicy.Ident := do
+  let tag : Nat ← getAs j "tag"
+  match j.getObjVal? "userid" with
+  | .ok u => do pure { userid := some (← optPrinOf u), tag := tag }
+  | .error _ => pure { userid := none, tag := tag }
+
+def jIdent (i : AuthPolicy.Ident) : Json :=
+  match i.userid with
+  | none => Json.mkObj [("tag", toJson i.tag)]
+  | some u => Json.mkObj [("tag", toJson i.tag), ("userid", jOptPrin u)]
+
+def pairsOf (j : Json) : Except String (List (Text × Text)) := do
+  (← arrOf j).mapM fun p =>
+    match p with
+    | .arr #[a, b] => do pure (← textOf a, ← textOf b)
+    | _ => throw "bad pair"
+
+def jPairs (ps : List (Text × Text)) : Json := Json.arr (ps.map fun p => Json.arr #[jText p.1, jText p.2]).toArray
+
+def sessionOf (j : Json) : Except String Session := do
+  (← arrOf j).mapM fun p =>
+    match p with
+    | .arr #[a, b] => do pure (← textOf a, ← optPrinOf b)
+    | _ => throw "bad session item"
+
+def jSession (s : Session) : Json := Json.arr (s.map fun p => Json.arr #[jText p.1, jOptPrin p.2]).toArray
+
+/-- a callback given by a finite table and a default answer -/
+def tableFn {α} [BEq α] (rows : List (α × Groups)) (dflt : Groups) : α → Groups := fun a =>
+  match rows.lookup a with
+  | some g => g
+  | none => dflt
+
+def cbOf {α} [BEq α] (argOf : Json → Except String α) (j : Json) : Except String (Option (α → Groups)) :=
+  match j with
+  | .null => pure none
+  | _ => do
+    let rows ← (← arrOf (← getField j "rows")).mapM fun p =>
+      match p with
+      | .arr #[a, g] => do pure (← argOf a, ← groupsOf g)
+      | _ => throw "bad callback row"
+    let d ← groupsOf (← getField j "default")
+    pure (some (tableFn rows d))
+
+def credOf (j : Json) : Except String (Text × Text) :=
+  match j with
+  | .arr #[a, b] => do pure (← textOf a, ← textOf b)
+  | _ => throw "bad credentials"
+
+instance : BEq AuthPolicy.Ident := ⟨fun a b => decide (a = b)⟩
+
+def jErr : Err → Json
+  | .keyError => "KeyError"
+  | .unicodeEncodeError => "UnicodeEncodeError"
+  | .valueError => "ValueError"
+
+def jR {α} (f : α → Json) : R α → Json
+  | .ok v => Json.mkObj [("ok", f v)]
+  | .error e => Json.mkObj [("err", jErr e)]
+
+def jHeaders : Headers → Json
+  | .list hs => Json.mkObj [("list", jPairs hs)]
+  | .pluginRemember u => Json.mkObj [("plugin_remember", jPrin u)]
+  | .pluginForget i => Json.mkObj [("plugin_forget", match i with | none => Json.null | some i => jIdent i)]
+
+def jHS (x : Headers × Session) : Json := Json.mkObj [("h", jHeaders x.1), ("s", jSession x.2)]
+
+def jPermOut : PermOut → Json
+  | .noPolicy => "nopolicy"
+  | .decided b => toJson b
+
+def jParse : Parse → Json
+  | .none => Json.null
+  | .raises => "raises"
+  | .creds u p => Json.mkObj [("u", jText u), ("p", jText p)]
+
+/-! ACL contexts (C11's model): principals are interned by their position in `univ` -/
+def parsePerms (j : Json) : Except String Acl.Perms :=
+  match j with
+  | .str "all" => pure .all
+  | .arr xs => do pure (.many (← xs.toList.mapM fun x => (fromJson? x : Except String Nat)))
+  | j => do pure (.one (← (fromJson? j : Except String Nat)))
+
+def parseAce (j : Json) : Except String (Acl.Action × Prin × Acl.Perms) :=
+  match j with
+  | .arr #[a, w, p] => do
+    let an : Nat ← fromJson? a
+    let act ← match an with
+      | 0 => pure Acl.Action.allow
+      | 1 => pure Acl.Action.deny
+      | 2 => pure Acl.Action.other
+      | _ => throw "bad action"
+    pure (act, ← prinOf w, ← parsePerms p)
+  | _ => throw "bad ace"
+
+def parseLineage (j : Json) : Except String (List (Option (List (Acl.Action × Prin × Acl.Perms)))) := do
+  (← arrOf j).mapM fun n =>
+    match n with
+    | .null => pure none
+    | _ => do pure (some (← (← arrOf n).mapM parseAce))
+
+/-- the name of a principal: its position in the universe (a principal outside maps to `univ.length`, a name no ACE has) -/
+def nameOf (univ : List Prin) (p : Prin) : Nat := univ.idxOf p
+
+def internLineage (univ : List Prin) (l : List (Option (List (Acl.Action × Prin × Acl.Perms)))) : Acl.Lineage :=
+  l.map fun n => n.map fun aces => aces.map fun a => ⟨a.1, nameOf univ a.2.1, a.2.2⟩
+
+/-- `ACLAuthorizationPolicy().permits(context, principals, permission)` by C11's model -/
+def aclAuthz (univ : List Prin) (ctxs : List Acl.Lineage) : Nat → List Prin → Nat → Bool := fun c ps perm =>
+  Acl.permits (ps.map (nameOf univ)) perm (ctxs.getD c [])
+
+def reqOf (j : Json) : Except String Req := do
+  let remote ← optPrinOf (← getField j "remote")
+  let identity ← match ← getField j "identity" with
+    | .null => pure none
+    | i => some <$> identOf i
+  let plugins : Option Bool ← match ← getField j "plugins" with
+    | .null => pure none
+    | b => some <$> (fromJson? b : Except String Bool)
+  let authorization ← match ← getField j "authorization" with
+    | .null => pure none
+    | t => some <$> textOf t
+  let session ← sessionOf (← getField j "session")
+  pure { remoteUser := remote, identity := identity, plugins := plugins, authorization := authorization, session := session }
+
+def policyOf (j : Json) : Except String Policy := do
+  let kind : String ← getAs j "kind"
+  let cbj ← getField j "cb"
+  match kind with
+  | "remote" => do pure (.remoteUser (← cbOf prinOf cbj))
+  | "session" => do pure (.session (← textOf (← getField j "prefix")) (← cbOf prinOf cbj))
+  | "repoze" => do pure (.repoze (← cbOf identOf cbj))
+  | "basic" => do
+    let f ← cbOf credOf cbj
+    let check : Text → Text → Groups := match f with
+      | some f => fun u p => f (u, p)
+      | none => fun _ _ => none
+    pure (.basic check (← textOf (← getField j "realm")))
+  | _ => throw s!"unknown kind {kind}"
+
+def secOf (j : Json) (pol : Policy) : Except String (Sec Nat Nat) := do
+  let sec : String ← getAs j "sec"
+  match sec with
+  | "none" => pure .none
+  | "custom" => do
+    let c ← getField j "custom"
+    let permits : List (Nat × Nat) ← (← arrOf (← getField c "permits")).mapM fun p =>
+      match p with
+      | .arr #[a, b] => do pure ((← fromJson? a : Nat), (← fromJson? b : Nat))
+      | _ => throw "bad permits row"
+    let rem ← pairsOf (← getField c "remember")
+    pure (.custom { identity := ← optPrinOf (← getField c "identity"), userid := ← optPrinOf (← getField c "userid"),
+                    permits := fun ctx perm => permits.contains (ctx, perm), remember := fun _ => rem,
+                    forget := ← pairsOf (← getField c "forget") })
+  | "legacy" => do
+    let a ← getField j "authz"
+    let kind : String ← getAs a "kind"
+    match kind with
+    | "table" => do
+      let rows : List (Nat × List Prin × Nat) ← (← arrOf (← getField a "allow")).mapM fun r =>
+        match r with
+        | .arr #[c, ps, p] => do pure ((← fromJson? c : Nat), ← (← arrOf ps).mapM prinOf, (← fromJson? p : Nat))
+        | _ => throw "bad allow row"
+      pure (.legacy pol fun c ps p => rows.contains (c, ps, p))
+    | "acl" => do
+      let raw ← (← arrOf (← getField a "contexts")).mapM parseLineage
+      let univ := (raw.flatMap fun l => l.flatMap fun n => (n.getD []).map (·.2.1)).eraseDups
+      pure (.legacy pol (aclAuthz univ (raw.map (internLineage univ))))
+    | _ => throw s!"unknown authz {kind}"
+  | _ => throw s!"unknown sec {sec}"
+
+def jVerified : Option (Prin × List Prin) → Json
+  | none => Json.null
+  | some (u, gs) => Json.mkObj [("u", jPrin u), ("g", Json.arr (gs.map jPrin).toArray)]
+
+end DrvX05
+open DrvX05
+
+def main : IO Unit := jsonDriver fun j => do
+  let op : String ← getAs j "op"
+  match op with
+  | "parse" =>
+    let h ← match ← getField j "h" with
+      | .null => pure none
+      | t => some <$> textOf t
+    return Json.mkObj [("out", jParse (parseBasic h))]
+  | "format" =>
+    let u ← textOf (← getField j "u")
+    let p ← textOf (← getField j "p")
+    return Json.mkObj [("h", jText (formatBasic u p))]
+  | "fmt" =>
+    let s ← textOf (← getField j "s")
+    let args ← (← arrOf (← getField j "args")).mapM textOf
+    match fmt s args with
+    | .ok t => return Json.mkObj [("ok", jText t)]
+    | .error .typeError => return Json.mkObj [("err", "TypeError")]
+    | .error .valueError => return Json.mkObj [("err", "ValueError")]
+    | .error .unmodelled => return Json.mkObj [("err", "unmodelled")]
+  | "policy" =>
+    let pol ← policyOf j
+    let req ← reqOf (← getField j "req")
+    let sec ← secOf j pol
+    let perm : Nat ← getAs j "perm"
+    let ctxArg : Option Nat ← match ← getField j "ctx_arg" with
+      | .null => pure none
+      | n => some <$> (fromJson? n : Except String Nat)
+    let uid ← prinOf (← getField j "uid")
+    return Json.mkObj [
+      ("unauth", jR jOptPrin (reqUnauthUserid sec req)),
+      ("auth", jR jOptPrin (reqAuthUserid sec req)),
+      ("identity", jR jOptPrin (reqIdentity sec req)),
+      ("is_auth", jR toJson (reqIsAuthenticated sec req)),
+      ("eff", jR (fun ps => Json.arr (ps.map jPrin).toArray) (reqEffPrincipals sec req)),
+      ("perm", jR jPermOut (reqHasPermission sec req perm none 0)),
+      ("perm_ctx", jR jPermOut (reqHasPermission sec req perm ctxArg 0)),
+      ("remember", jR jHS (secRemember sec req uid)),
+      ("forget", jR jHS (secForget sec req false)),
+      ("forget_kw", jR jHS (secForget sec req true)),
+      ("verified", jR jVerified (verified pol req)),
+      ("spec_auth", jR jOptPrin (specAuthUserid pol req)),
+      ("spec_eff", jR (fun ps => Json.arr (ps.map jPrin).toArray) (specPrincipals pol req))]
+  | _ => throw s!"unknown op {op}"
